@@ -580,29 +580,35 @@ SRC_RULE = ("srcdiff: generated trees (depth <= 3, fan-out <= 4; names with unic
             "Non-trivial = tree with >= 2 files and >= 2 directories; distinct = distinct printed case.")
 
 PROPS["C04"] = dict(
-    technique="Coq specification of what a source must answer for a tree (with proofs that listings are exactly "
-              "the direct children and every listed entry is there) + translation validation: the same "
-              "generated tree through FileSystem, Zip, Tar and Embedded, every answer checked against the "
-              "specification inside Coq",
+    technique="Coq specification of what a source must answer for a tree; Coq model of the index zip.rs / tar.rs "
+              "build (register_dir / register_file) with a proof that it answers like the specification for "
+              "every member list, tied to the printed code; translation validation: the same generated tree "
+              "through FileSystem, Zip, Tar and Embedded, every answer checked against the specification and "
+              "(archives, order included) against the index model inside Coq",
     level_text="Theorems (Props/C04.v, closed under the global context) about the specification Ref.Tree: a "
                "listing contains exactly the files and directories whose parent is the directory, every "
                "listed entry exists / is readable under the id and extension it was listed with, read_dir "
-               "answers exactly for directories (the root included).  That the four real sources implement "
-               "this specification is checked by srcdiff for every generated tree and archive variant "
-               "(level translation_validation for that half): no theorem is about register_file itself "
-               "(its HashMap entry API is outside the interpreted Rust subset); zip / tar / flate2 decoding, "
-               "SyncFile cloning and the OS filesystem are exercised, not modelled.",
+               "answers exactly for directories (the root included).  Archives: the index built by folding "
+               "register_file over ANY member list (no duplicates, no empty file id) answers exists / read_dir "
+               "exactly like the specification for the tree the members describe, each child once; member "
+               "order and directory members that other members imply do not matter; the printed "
+               "register_dir / register_file / create / read_dir / exists of zip.rs and tar.rs have the "
+               "modelled shape.  FileSystem and Embedded, path parsing (IdBuilder, extension_of), zip / tar / "
+               "flate2 decoding, SyncFile cloning and the OS are exercised by srcdiff against the "
+               "specification (translation validation for that half), not modelled.",
     level_note="Trusted: Coq kernel+VM, the harness (tree generator, archive writers of the zip and tar crates, "
                "answer printers), the checkers in Corr/SrcCheck.v.  I5: archives with the same member path "
                "twice are not generated.",
-    gen=[],
-    model_files=["Ref/Tree.v", "Corr/Common.v", "Corr/SrcCheck.v"],
+    gen=["Archive"],
+    model_files=["Ref/Tree.v", "Ref/Archive.v", "Corr/Common.v", "Corr/SrcCheck.v"],
     model_targets=["Corr/SrcCheck.vo"],
-    proof_files=["Proofs/Tree.v", "Props/C04.v"],
+    proof_files=["Proofs/Tree.v", "Proofs/Archive.v", "Tie/Archive.v", "Props/C04.v"],
     proof_targets=["Props/C04.vo"],
     props_module="Props.C04",
     theorems=["C04_listing_is_exactly_the_direct_children", "C04_listed_entries_are_readable_under_their_id",
-              "C04_read_dir_answers_exactly_for_directories"],
+              "C04_read_dir_answers_exactly_for_directories", "C04_code_builds_the_modelled_index",
+              "C04_archive_index_answers_like_the_tree", "C04_member_order_is_irrelevant",
+              "C04_implied_directory_members_are_redundant", "C04_archive_nonvacuous"],
     engines=[("srcdiff", [])],
     rule=SRC_RULE,
     trusted_base=["zip / tar writers used to build the archives"],
@@ -624,7 +630,7 @@ PROPS["C11"] = dict(
                "the sysdiff correspondence with Ref.Sys.load_rec_dir_value.",
     level_note="Trusted: as C04; the sort order compared is byte order of the joined ids.",
     gen=["Dirs", "Flags"],
-    model_files=["Ref/Tree.v", "Corr/Common.v", "Corr/SrcCheck.v", "Ref/Load.v", "Ref/Sys.v", "Corr/SysCheck.v"],
+    model_files=["Ref/Tree.v", "Ref/Archive.v", "Corr/Common.v", "Corr/SrcCheck.v", "Ref/Load.v", "Ref/Sys.v", "Corr/SysCheck.v"],
     model_targets=["Corr/SrcCheck.vo", "Corr/SysCheck.vo"],
     proof_files=["Proofs/Tree.v", "Tie/Dirs.v", "Props/C11.v"],
     proof_targets=["Props/C11.vo"],
